@@ -324,6 +324,50 @@ def check_recovery_terminates(ctx):
     ctx.floor('defaulted_states', 3)
 
 
+def check_result_untouched(ctx):
+    """The driver is iterative and the actions only build nodes; the printers of the tree (__repr__ / to_string / to_tree) are recursive and not total on every
+    tree the grammar can build.  So the entry code must hand the parsed tree over without formatting it: a value bound from `<parser>.parse(...)` may be compared
+    with None, tested, returned or passed on - never formatted (f-string, %, str/repr/format/print, .to_string()/.to_tree()/.get_string())."""
+    tree = ctx.src.tree(INIT)
+    n_res = 0
+    PRINT_M = {'to_string', 'to_tree', 'get_string', '__repr__', '__str__', 'format'}
+    for fn in [n for n in ast.walk(tree) if isinstance(n, ast.FunctionDef)]:
+        names = set()
+        for n in walk_no_nested(fn):
+            if isinstance(n, ast.Assign) and isinstance(n.value, ast.Call) and isinstance(n.value.func, ast.Attribute) and n.value.func.attr == 'parse':
+                for t in n.targets:
+                    if isinstance(t, ast.Name):
+                        names.add(t.id)
+        for var in sorted(names):
+            n_res += 1
+            bad = []
+            for n in walk_no_nested(fn):
+                if not (isinstance(n, ast.Name) and n.id == var and isinstance(n.ctx, ast.Load)):
+                    continue
+                p = getattr(n, '_parent', None)
+                how = None
+                if isinstance(p, ast.FormattedValue):
+                    how = 'formatted in an f-string'
+                elif isinstance(p, ast.Call) and n in p.args and dotted(p.func) in ('str', 'repr', 'format', 'print', 'ascii'):
+                    how = f'passed to {dotted(p.func)}()'
+                elif isinstance(p, ast.Attribute) and p.attr in PRINT_M:
+                    how = f'printed with .{p.attr}()'
+                elif isinstance(p, ast.BinOp) and isinstance(p.op, ast.Mod) and p.right is n:
+                    how = 'formatted with %'
+                elif isinstance(p, ast.Tuple) and isinstance(getattr(p, '_parent', None), ast.BinOp) and isinstance(p._parent.op, ast.Mod):
+                    how = 'formatted with %'
+                elif isinstance(p, ast.Call) and isinstance(p.func, ast.Attribute) and p.func.attr == 'format' and (n in p.args or any(k.value is n for k in p.keywords)):
+                    how = 'formatted with str.format'
+                if how:
+                    bad.append((n.lineno, how))
+            ctx.ob('C02.result-not-printed', f'{fn.name}:{var}', not bad,
+                   f'{fn.name}: the parsed tree `{var}` is ' + '; '.join(f'{h} (line {l})' for l, h in bad) + ' on the parse path: the tree printers are '
+                   'recursive and not total on every tree the grammar builds, so a RecursionError / TypeError of a printer leaves parse_sql instead of the tree',
+                   file=INIT, line=bad[0][0] if bad else fn.lineno, witness='select * from t where ' + ' or '.join(f'a = {i}' for i in range(3)) + ' or ... (500 terms)')
+    ctx.setcount('parse_results', n_res)
+    ctx.floor('parse_results', 2)
+
+
 def run(ctx):
     ctx.explanation = (
         'May-raise analysis of the repository-owned parse path. Grammar actions: for each of the three dialects the semantic-'
@@ -351,6 +395,7 @@ def run(ctx):
     check_regex_linear(ctx)
     check_token_actions(ctx)
     check_recovery_terminates(ctx)
+    check_result_untouched(ctx)
     if ctx.tier == 'thorough':
         check_reachability(ctx)
     ctx.floor('grammar_actions', 200 + 100 + 80)
